@@ -62,7 +62,7 @@ CtorHeaps ==
 ValHeaps ==
   {H1(F23num, "dense", "F23num"), H1(F23tax, "csr_unsorted", "F23tax"), H1(T23, "csr_zeros", "T23z"),
    H1(T33, "csc", "T33"), H1(F33dense, "dense", "F33dense"), H1(F13, "dense", "F13"), H1(F24frac, "coo", "F24frac")}
-HeapSets == [pairs |-> MergeHeaps \cup ConcatHeaps \cup CountHeaps, val |-> ValHeaps, sum |-> SumHeaps, ctor |-> CtorHeaps, files |-> FileHeaps, json |-> JsonHeaps,std |-> MCInitHeaps, eq |-> EqHeaps, all |-> MCInitHeaps \cup EqHeaps, mrg |-> MergeHeaps,
+HeapSets == [one |-> {H1(T22, "dense", "T22")}, pairs |-> MergeHeaps \cup ConcatHeaps \cup CountHeaps, val |-> ValHeaps, sum |-> SumHeaps, ctor |-> CtorHeaps, files |-> FileHeaps, json |-> JsonHeaps,std |-> MCInitHeaps, eq |-> EqHeaps, all |-> MCInitHeaps \cup EqHeaps, mrg |-> MergeHeaps,
              cat |-> ConcatHeaps, cnt |-> CountHeaps, stdcnt |-> MCInitHeaps \cup CountHeaps]
 MCHeaps == HeapSets[IOEnv.GEN_HEAPS]
 
